@@ -47,6 +47,9 @@ CLAUSES = {
     "parts out of order / differing checksum / differing y are refused": "proved (multi_out_of_order, multi_checksum_mismatch, multi_y_mismatch)",
     "accepted parts yielding other data than the checksum's owner encoded exhibit a SHA-256 collision":
         "proved relative to sha256 (multi_collision_extraction, single_collision_extraction)",
+    "the decoders accept canonical encodings only": "proved (bc32_decode_canonical, single_parse_canonical)",
+    "objects do not remember earlier queries (BCURMulti/BCURSingle encoded repeatedly with different chunk sizes / "
+    "flags, parse results re-encoded, every query issued twice)": "correspondence-only (multi_history, single_history, doubled requests)",
     "N20a: the 4-byte-length CBOR prefix is 0x60 (CBOR says 0x5a)": "observation outside the statement; modelled faithfully (Gen.cborEncP4 = Gen.cborDecCmp[4] = 96)",
 }
 TRUSTED = ["sha256 is a parameter of every theorem; the driver instantiates it with Buidl.Model.Hash.SHA256 "
@@ -154,6 +157,13 @@ def model_line(line):
     return line
 
 
+def impl_twice(line):
+    """every query is issued twice; differing answers (hidden state) can match no model answer"""
+    a = impl_line(line)
+    b = impl_line(line)
+    return a if a == b else f"UNSTABLE {a[:200]} | {b[:200]}"
+
+
 # ------------------------------------------------------------------ direct predicates
 def p_cbor_rt(c):
     import buidl.bech32 as B32
@@ -226,7 +236,53 @@ def p_reject_or_same(c):
     return got == d, xb(got)[:80], xb(d)[:80]
 
 
-PREDICATES = {"cbor_roundtrip": p_cbor_rt, "bc32_roundtrip": p_bc32_rt, "convertbits_roundtrip": p_convertbits_rt,
+def p_multi_history(c):
+    """one BCURMulti object encoded with several chunk sizes in sequence (every query twice), the parse result
+    re-encoded: all answers equal those of fresh objects, the object's attributes do not change"""
+    import buidl.bcur as BC
+    d = unx(c["d"])
+    o = BC.BCURMulti(b64(d))
+    before = (o.text_b64, o.encoded, o.enc_hash, o.checksum)
+    got, want = [], []
+    for m, anim in c["seq"]:
+        for _ in range(2):
+            got.append(o.encode(max_size_per_chunk=m, animate=anim))
+        want += [BC.BCURMulti(b64(d)).encode(max_size_per_chunk=m, animate=anim)] * 2
+    ok = got == want and (o.text_b64, o.encoded, o.enc_hash, o.checksum) == before
+    # parse results re-encoded, twice, with the same and with another chunk size
+    for parts, (m, anim) in zip(got[::2], c["seq"]):
+        p1 = BC.BCURMulti.parse(parts)
+        p2 = BC.BCURMulti.parse(parts)
+        ok = ok and a2b_base64(p1.text_b64) == d and p1.text_b64 == p2.text_b64 and p1.checksum == p2.checksum
+        ok = ok and p1.encode(max_size_per_chunk=m, animate=anim) == parts == p1.encode(max_size_per_chunk=m, animate=anim)
+        m2 = c["seq"][0][0]
+        ok = ok and p1.encode(max_size_per_chunk=m2) == BC.BCURMulti(b64(d)).encode(max_size_per_chunk=m2)
+    return ok, [len(x) for x in got], [len(x) for x in want]
+
+
+def p_single_history(c):
+    """one BCURSingle object encoded with and without checksum in sequence (every query twice); parse results re-encoded"""
+    import buidl.bcur as BC
+    d = unx(c["d"])
+    o = BC.BCURSingle(b64(d))
+    before = (o.text_b64, o.encoded, o.enc_hash)
+    got, want = [], []
+    for use in c["seq"]:
+        for _ in range(2):
+            got.append(o.encode(use_checksum=use))
+        want += [BC.BCURSingle(b64(d)).encode(use_checksum=use)] * 2
+    ok = got == want and (o.text_b64, o.encoded, o.enc_hash) == before
+    for s, use in zip(got[::2], c["seq"]):
+        p1 = BC.BCURSingle.parse(s)
+        ok = ok and a2b_base64(p1.text_b64) == d and p1.encode(use_checksum=use) == s == p1.encode(use_checksum=use)
+        ok = ok and p1.encode(use_checksum=not use) == BC.BCURSingle(b64(d)).encode(use_checksum=not use)
+        # the same text through BCURMulti.parse and back
+        pm = BC.BCURMulti.parse([s])
+        ok = ok and a2b_base64(pm.text_b64) == d and pm.encode(animate=False)[0].split("/")[-1] == o.encoded
+    return ok, got[:2], want[:2]
+
+
+PREDICATES = {"multi_history": p_multi_history, "single_history": p_single_history, "cbor_roundtrip": p_cbor_rt, "bc32_roundtrip": p_bc32_rt, "convertbits_roundtrip": p_convertbits_rt,
               "single_roundtrip": p_single_rt, "multi_roundtrip": p_multi_rt, "tampered_parts": p_reject_or_same}
 
 
@@ -240,7 +296,7 @@ def eval_pred(kind, case):
 def _heavy(job):
     what, arg = job
     if what == "line":
-        return impl_line(arg)
+        return impl_twice(arg)
     if what == "bc32_subst":
         return bc32_subst_batch(arg)
     return eval_pred(arg[0], arg[1])
@@ -427,6 +483,14 @@ def run(ctx):
                 lines.append(("bcur_dec", f"bcur_dec {xs(s1.encoded)} {xs(s1.enc_hash)}"))
                 lines.append(("bcur_dec", f"bcur_dec {xs(s1.encoded)} -"))
                 lines.append(("bcur_dec", f"bcur_dec {xs(s1.enc_hash)} {xs(s1.encoded)}"))
+
+    # ---- object-reuse histories
+    for ln in [0, 23, 24, 255, 256, 1000] + [rng.randrange(0, 3000) for _ in range(ctx.n(12))] + [65536]:
+        d = rbytes(rng, ln)
+        seq = [(rng.choice(chunk_catalogue + [rng.randrange(1, 2001)]), rng.random() < 0.8) for _ in range(rng.randrange(2, 5))]
+        seq = [(m, a) for m, a in seq if (ln * 8 // 5 + 16) / m <= 3000 or not a] or [(300, True)]
+        preds.append(("multi_history", {"d": xb(d), "seq": seq}))
+        preds.append(("single_history", {"d": xb(d), "seq": [rng.random() < 0.5 for _ in range(3)]}))
 
     # ---- permutations, omissions, foreign parts for encodings of at most 5 parts
     small = [(d, p) for d, p in encoded if len(p) <= 5]
